@@ -815,7 +815,7 @@ def transient_io_fault(nth=1):
         h5py.File.__init__ = orig
 
 
-ENV_KEYS = ("LC_ALL", "LANG", "LC_CTYPE", "PYTHONUTF8", "PYTHONCOERCECLOCALE", "PYTHONIOENCODING", "TZ", "PYTHONOPTIMIZE", "PYTHONWARNINGS")
+ENV_KEYS = ("NSSVERIF_PRELUDE", "NSSVERIF_R_EARTH", "LC_ALL", "LANG", "LC_CTYPE", "PYTHONUTF8", "PYTHONCOERCECLOCALE", "PYTHONIOENCODING", "TZ", "PYTHONOPTIMIZE", "PYTHONWARNINGS")
 
 
 def other_environment_body(modname, base_subcheck, envs):
@@ -855,6 +855,13 @@ ENVS_OPTIMIZED = [
 ]
 
 
+# astropy's process-wide constants version switched before the import (IAU 2012: R_earth = 6378.136 km instead of the
+# nominal 6378.1 km): the package must use ONE Earth radius throughout
+ENVS_CONSTANTS = [
+    {"NSSVERIF_PRELUDE": "import astropy; astropy.astronomical_constants.set('iau2012')", "NSSVERIF_R_EARTH": "6378.136"},
+]
+
+
 def env_variant(modname, base_sc, envs=None, quick=2, thorough=40, cases=(20, 40)):
     """A sub-check that re-runs generated cases of `base_sc` in fresh interpreters with another process environment."""
     from hypothesis import strategies as st
@@ -865,7 +872,7 @@ def env_variant(modname, base_sc, envs=None, quick=2, thorough=40, cases=(20, 40
         return st.fixed_dictionaries({"cases": st.lists(base_sc.get_strategy(tier), min_size=cases[0], max_size=cases[1]), "env": st.sampled_from(list(range(len(envs))))})
 
     return SubCheck(
-        base_sc.name + "_other_environment",
+        base_sc.name + ("_other_environment" if envs is ENVS_OPTIMIZED else "_other_settings"),
         strat,
         other_environment_body(modname, base_sc.name, envs),
         lambda labels: True,
